@@ -8,11 +8,9 @@ From LC Require Import Base.Lib Model.Dict Model.TrieBuf.
 Import ListNotations.
 Open Scope N_scope.
 
-(* over arbitrary layers, each given by its lookup_all_phrases result.
-   dedup_first = false is the code; true (every layer asked for `first` only, i.e.
-   truncation before de-duplication) exists for the self-test mutant only. *)
+(* over arbitrary layers, each given by its lookup_all_phrases result *)
 Definition layered_merge (results : list (list phrase)) (first : N) : list phrase :=
-  firstN first (dedup (concat results)).
+  truncate_usize first (dedup (concat results)).
 
 (* a concrete stack: read-only system Tries + a TrieBuf user layer *)
 Record layered := mkLayered { ly_sys : list trie; ly_user : triebuf }.
